@@ -23,7 +23,7 @@ CONFIG = {
         "over-approximated as arbitrary scripts of ledger operations (boxes, global / local state, inner payment / asset config / transfer / freeze) "
         "ending in approve / reject / failure; NOT modelled: inner application calls (call depth > 1), UpdateApplication, inner rekey / keyreg, "
         "heartbeats, state proofs, the AVM's fee-credit test for inner groups and its resource-availability rules (the harness stays inside them)",
-        "prevTotals.RewardUnits() equals the reward units of the participating accounts (AccountTotals correctness is C12; the harness checks it on every case)",
+        "prevTotals.RewardUnits() equals the reward units of the participating accounts: the harness reports it on every case; a mismatch is no longer an input error -- the block is then judged by the conservation oracle (code 3 when the rewards level rises and the pool pays for units no account holds, code 2 otherwise; pure AccountTotals drift without lost money is C12)",
         "the new rewards level is the one NextRewardsState computes (C25), the proposer payout the one validateForPayouts admits (C24), "
         "the expired / absent lists are justified (C27); the model takes them as inputs",
         "accounts listed as expired are not NotParticipating (C18_expire_nonparticipating_refuted shows the premise is needed; in the Go code "
